@@ -12,6 +12,7 @@ TRUSTED = ["brotli is not modelled: compress/decompress are Section variables wi
 ASSUMPTIONS = ["debug-profile harness; 64-bit usize; boxes below 4 GiB (the u32 size arithmetic of the writer is modelled without the debug overflow panic)"]
 
 BOXES_RS = "sdk/src/jumbf/boxes.rs"
+COMPACT_ABOVE = 3000     # bytes: longer inputs are compared through (length, checksum) of the printed tree and of the bytes
 
 # writer struct -> reader BoxType variant
 WRITER_OF = {"JUMBFSuperBox": "Jumb", "JUMBFDescriptionBox": "Jumd", "JUMBFPaddingContentBox": "Padding",
@@ -72,3 +73,780 @@ def facts(ctx):
     common.write_if_changed(os.path.join(common.COQ, "Generated", "C18_facts.v"), "\n".join(lines) + "\n")
     ctx.facts = {"MAX_JUMB_DEPTH": depth, "HEADER_SIZE": hdr, "JUMD_MIN_SIZE": jumd_min, "BFDB_MIN_SIZE": bfdb_min,
                  "types": {COQ_NAME[v]: table[v] for v in COQ_NAME}}
+
+
+# ------------------------------------------------------------------ python-side trees (same JSON shape as the harness prints)
+
+FCC = {"super": b"jumb", "json": b"json", "cbor": b"cbor", "free": b"free", "jp2c": b"jp2c", "brob": b"brob",
+       "uuid": b"uuid", "bfdb": b"bfdb", "bidb": b"bidb"}
+PLAIN = ("json", "cbor", "free", "jp2c", "brob", "bidb")
+KNOWN_UUIDS = ["6332706100110010800000aa00389b71", "63326d6100110010800000aa00389b71", "6332617300110010800000aa00389b71",
+               "6a736f6e00110010800000aa00389b71", "63626f7200110010800000aa00389b71", "40cb0c32bb8a489da70b2ad6f47f4369",
+               "7575696400110010800000aa00389b71", "6332636c00110010800000aa00389b71", "6332637300110010800000aa00389b71",
+               "6332636d00110010800000aa00389b71"]
+
+
+def valid_text(b):
+    try:
+        b.decode("utf-8")
+    except UnicodeDecodeError:
+        return False
+    return len(b) > 0
+
+
+def hdr(size, fcc, xl=False):
+    if xl:
+        return (1).to_bytes(4, "big") + fcc + (size & (2 ** 64 - 1)).to_bytes(8, "big")
+    return (size & 0xFFFFFFFF).to_bytes(4, "big") + fcc
+
+
+def ser(n):
+    """flexible writer used to *generate byte strings* (canonical for plain trees; knobs starting with '_' distort it):
+    _size / _dsize: declared size override (absolute), _dsz / _ddsz: delta, _xl / _dxl: XLBox header, _type: fourcc override,
+    _label_raw: label bytes written verbatim (no NUL added), _salt_size, _salt_type, k == 'raw': bytes spliced verbatim"""
+    k = n["k"]
+    if k == "raw":
+        return bytes.fromhex(n["d"])
+    if k == "super":
+        lab = bytes.fromhex(n["label"])
+        dp = bytes.fromhex(n["uuid"]) + bytes([n["tog"]])
+        if "_label_raw" in n:
+            dp += bytes.fromhex(n["_label_raw"])
+        elif valid_text(lab):
+            dp += lab + b"\0"
+        if n.get("id") is not None:
+            dp += n["id"].to_bytes(4, "big")
+        if n.get("sig") is not None:
+            dp += bytes.fromhex(n["sig"])
+        if n.get("salt") is not None:
+            s = bytes.fromhex(n["salt"])
+            dp += hdr(n.get("_salt_size", 8 + len(s)), bytes.fromhex(n["_salt_type"]) if "_salt_type" in n else b"c2sh",
+                      n.get("_salt_xl", False)) + s
+        dxl = n.get("_dxl", False)
+        dsize = n.get("_dsize", 8 + len(dp) + n.get("_ddsz", 0))
+        payload = hdr(dsize, bytes.fromhex(n["_dtype"]) if "_dtype" in n else b"jumd", dxl) + dp + b"".join(ser(c) for c in n["c"])
+    elif k in PLAIN:
+        payload = bytes.fromhex(n["d"])
+    elif k == "uuid":
+        d = bytes.fromhex(n["d"])
+        payload = (bytes.fromhex(n["u"]) + d) if (d or n.get("_keep_uuid")) else b""
+        if not d and not n.get("_keep_uuid"):
+            # the canonical writer declares 24 and writes nothing
+            return hdr(n.get("_size", 24), b"uuid", n.get("_xl", False))
+    elif k == "bfdb":
+        mt = bytes.fromhex(n["mt"])
+        payload = bytes([n["tog"]]) + (bytes.fromhex(n["_mt_raw"]) if "_mt_raw" in n else (mt + b"\0" if valid_text(mt) else b""))
+    else:
+        raise ValueError(k)
+    xl = n.get("_xl", False)
+    size = n.get("_size", (16 if xl and n.get("_xl_counts16") else 8) + len(payload) + n.get("_dsz", 0))
+    return hdr(size, bytes.fromhex(n["_type"]) if "_type" in n else FCC[k], xl) + payload
+
+
+def strip_knobs(n):
+    o = {k: v for k, v in n.items() if not k.startswith("_")}
+    if "c" in o:
+        o["c"] = [strip_knobs(c) for c in o["c"] if c["k"] != "raw"]
+    return o
+
+
+def coq_hex(h):
+    return coq_bytes(bytes.fromhex(h)) if h else "(@nil N)"
+
+
+def coq_opt(h):
+    return "None" if h is None else f"(Some {coq_hex(h)})"
+
+
+def coq_tree(n):
+    k = n["k"]
+    if k == "super":
+        d = (f"(mkdesc {coq_hex(n['uuid'])} {n['tog']} {coq_hex(n['label'])} "
+             f"{'None' if n.get('id') is None else '(Some %d)' % n['id']} {coq_opt(n.get('sig'))} {coq_opt(n.get('salt'))})")
+        return f"(Super {d} {coq_list([coq_tree(c) for c in n['c']])})"
+    if k in PLAIN:
+        return f"({k.capitalize()} {coq_hex(n['d'])})"
+    if k == "uuid":
+        return f"(Uuid {coq_hex(n['u'])} {coq_hex(n['d'])})"
+    if k == "bfdb":
+        return f"(Bfdb {n['tog']} {coq_hex(n['mt'])} {coq_opt(n.get('fn'))})"
+    raise ValueError(k)
+
+
+def coq_big_bytes(b, k=400):
+    """long byte strings as a concat of chunks (a flat list literal overflows coqc's stack)"""
+    if len(b) <= k:
+        return coq_bytes(b) if b else "(@nil N)"
+    return "(concat [" + ";".join("[" + ";".join(map(str, b[i:i + k])) + "]" for i in range(0, len(b), k)) + "])%N"
+
+
+def hx(v):
+    if v == "nil" or v == []:
+        return ""
+    return bytes(v).hex()
+
+
+def ohx(v):
+    return None if v == "None" else hx(v[1])
+
+
+def tree_of_coq(t):
+    """parsed Coq term -> the harness's JSON tree"""
+    h = t[0]
+    if h == "Super":
+        d = t[1]
+        return {"k": "super", "uuid": hx(d["d_uuid"]), "tog": d["d_tog"], "label": hx(d["d_label"]),
+                "id": None if d["d_id"] == "None" else d["d_id"][1], "sig": ohx(d["d_sig"]), "salt": ohx(d["d_salt"]),
+                "c": [tree_of_coq(c) for c in t[2]]}
+    k = h.lower()
+    if k in PLAIN:
+        return {"k": k, "d": hx(t[1])}
+    if k == "uuid":
+        return {"k": "uuid", "u": hx(t[1]), "d": hx(t[2])}
+    if k == "bfdb":
+        return {"k": "bfdb", "tog": t[1], "mt": hx(t[2]), "fn": ohx(t[3])}
+    raise ValueError(h)
+
+
+def report_of_coq(r):
+    """parsed `report` -> same dict shape as the harness's box op (without ids)"""
+    if r == "RepPanic":
+        return {"r": "panic"}
+    if r == "RepFuel":
+        return {"r": "hang"}
+    if r[0] == "RepErr":
+        return {"r": "err", "kind": r[1][1:]}
+    _, t, e, s = r
+    out = {"r": "ok", "tree": tree_of_coq(t), "enc": hx(e)}
+    if s == "SameTree":
+        out.update({"r2": "ok", "tree2_same": True, "enc2_same": True})
+    elif s == "SecondPanic":
+        out["r2"] = "panic"
+    elif s == "SecondFuel":
+        out["r2"] = "hang"
+    elif s[0] == "SecondErr":
+        out.update({"r2": "err", "kind2": s[1][1:]})
+    else:
+        out.update({"r2": "ok", "tree2_same": False, "tree2": tree_of_coq(s[1]), "enc2_same": hx(s[2]) == out["enc"]})
+        if not out["enc2_same"]:
+            out["enc2"] = hx(s[2])
+    return out
+
+
+def cksum(b):
+    a = 7
+    for x in b:
+        a = (a * 257 + x + 1) % 4294967291
+    return a
+
+
+def digest(b):
+    return [len(b), cksum(b)]
+
+
+def print_tree(n):
+    P = lambda h: len(bytes.fromhex(h)).to_bytes(8, "big") + bytes.fromhex(h)
+    O = lambda h: b"\0" if h is None else b"\1" + P(h)
+    k = n["k"]
+    if k == "super":
+        return (b"\1" + P(n["uuid"]) + bytes([n["tog"]]) + P(n["label"]) + (b"\0" if n["id"] is None else b"\1" + n["id"].to_bytes(4, "big"))
+                + O(n["sig"]) + O(n["salt"]) + len(n["c"]).to_bytes(4, "big") + b"".join(print_tree(c) for c in n["c"]))
+    if k in PLAIN:
+        return bytes([{"json": 2, "cbor": 3, "free": 4, "jp2c": 5, "brob": 6, "bidb": 7}[k]]) + P(n["d"])
+    if k == "uuid":
+        return b"\x08" + P(n["u"]) + P(n["d"])
+    return bytes([9, n["tog"]]) + P(n["mt"]) + O(n["fn"])
+
+
+def digest_of_impl(r):
+    """the harness's box result in the shape of the model's compact report"""
+    if r["r"] != "ok":
+        return {k: v for k, v in r.items() if k in ("r", "kind")}
+    out = {"r": "ok", "tree": digest(print_tree(r["tree"])), "enc": digest(bytes.fromhex(r["enc"])), "enc_same_as_input": r["enc_same_as_input"],
+           "r2": r["r2"]}
+    if r["r2"] == "err":
+        out["kind2"] = r["kind2"]
+    elif r["r2"] == "ok":
+        out["tree2_same"] = r["tree2_same"]
+        if not r["tree2_same"]:
+            out["tree2"] = digest(print_tree(r["tree2"]))
+            out["enc2"] = digest(bytes.fromhex(r["enc2"])) if "enc2" in r else out["enc"]
+            out["enc2_same"] = r["enc2_same"]
+    return out
+
+
+def digest_of_coq(o):
+    if o == "DPanic":
+        return {"r": "panic"}
+    if o == "DFuel":
+        return {"r": "hang"}
+    if o[0] == "DErr":
+        return {"r": "err", "kind": o[1][1:]}
+    _, t, e, same, s = o
+    out = {"r": "ok", "tree": list(t), "enc": list(e), "enc_same_as_input": same == "true"}
+    if s == "DSame":
+        out.update({"r2": "ok", "tree2_same": True})
+    elif s == "DSecondPanic":
+        out["r2"] = "panic"
+    elif s == "DSecondFuel":
+        out["r2"] = "hang"
+    elif s[0] == "DSecondErr":
+        out.update({"r2": "err", "kind2": s[1][1:]})
+    else:
+        out.update({"r2": "ok", "tree2_same": False, "tree2": list(s[1]), "enc2": list(s[2]), "enc2_same": s[3] == "true"})
+    return out
+
+
+IMPORTS = ("From C2PA Require Import Base.Bytes Model.Jumbf.\nFrom Coq Require Import NArith List.\n"
+           "Import ListNotations.\nOpen Scope N_scope.")
+
+
+# ------------------------------------------------------------------ generators
+
+LABELS = ["c2pa", "c2pa.assertions", "c2pa.claim", "c2pa.claim.v2", "c2pa.signature", "c2pa.credentials", "c2pa.databoxes",
+          "urn:uuid:6a1f7b8e-55aa-4c1d-9d8a-3e7b1a2c4d5e", "contentauth:urn:uuid:123", "c2pa.thumbnail.claim.jpeg",
+          "c2pa.hash.data", "c2pa.actions.v2", "c2pa.ingredient__1", "stds.schema-org.CreativeWork", "a", "é", "日本", "x" * 70,
+          "\U0001F600ok", "߿ࠀ￿"]
+
+
+def rbytes(rng, n):
+    return bytes(rng.randrange(256) for _ in range(n))
+
+
+def gen_payload(rng):
+    r = rng.random()
+    n = 0 if r < 0.08 else rng.randrange(1, 12) if r < 0.7 else rng.randrange(12, 80) if r < 0.97 else rng.randrange(80, 600)
+    return rbytes(rng, n).hex()
+
+
+def gen_text(rng):
+    if rng.random() < 0.7:
+        return rng.choice(LABELS).encode()
+    return "".join(rng.choice("abcXYZ.:_-09 é日 \U00010348") for _ in range(rng.randrange(1, 20))).encode()
+
+
+def gen_desc(rng):
+    tog = 3
+    d = {"uuid": rng.choice(KNOWN_UUIDS) if rng.random() < 0.7 else rbytes(rng, 16).hex(), "label": gen_text(rng).hex(),
+         "id": None, "sig": None, "salt": None}
+    if rng.random() < 0.15:
+        tog |= 4
+        d["id"] = rng.choice([0, 1, 255, 256, 2 ** 31, 2 ** 32 - 1, rng.randrange(2 ** 32)])
+    if rng.random() < 0.15:
+        tog |= 8
+        d["sig"] = rbytes(rng, 32).hex()
+    if rng.random() < 0.3:
+        tog |= 16
+        d["salt"] = rbytes(rng, rng.choice([0, 1, 16, 16, 32, 33])).hex()
+    if rng.random() < 0.1:
+        tog |= rng.choice([32, 64, 128, 224])
+    d["tog"] = tog
+    return d
+
+
+def gen_leaf(rng):
+    k = rng.choice(["json", "cbor", "cbor", "free", "jp2c", "brob", "uuid", "bfdb", "bidb"])
+    if k == "uuid":
+        return {"k": "uuid", "u": rbytes(rng, 16).hex(), "d": rbytes(rng, rng.randrange(1, 20)).hex()}
+    if k == "bfdb":
+        r = rng.random()
+        if r < 0.15:
+            return {"k": "bfdb", "tog": rng.choice([0, 1, 2, 255]), "mt": "", "fn": None}
+        if r < 0.45:
+            return {"k": "bfdb", "tog": 1, "mt": rng.choice([b"image/jpeg", b"a", "é".encode()]).hex(), "fn": "00"}
+        mt = rng.choice([b"image/jpeg", b"image/png", b"a\0", b"\0", b"text/plain\0\0", "ü/x".encode()])
+        return {"k": "bfdb", "tog": rng.choice([0, 0, 2, 254]), "mt": mt.hex(), "fn": None}
+    return {"k": k, "d": gen_payload(rng)}
+
+
+def gen_tree(rng, depth=0, maxdepth=4):
+    n = dict(gen_desc(rng), k="super", c=[])
+    for _ in range(rng.choice([1, 1, 2, 2, 3, 4])):
+        if depth < maxdepth and rng.random() < 0.4:
+            n["c"].append(gen_tree(rng, depth + 1, maxdepth))
+        else:
+            n["c"].append(gen_leaf(rng))
+    return n
+
+
+def chain(rng, depth, inner=None):
+    """superboxes nested `depth` deep (the root is level 1)"""
+    node = inner or {"k": "json", "d": "7b7d"}
+    for _ in range(depth):
+        node = dict(gen_desc(rng), k="super", c=[node])
+    return node
+
+
+def nodes_of(n, out=None):
+    out = [] if out is None else out
+    out.append(n)
+    for c in n.get("c", []):
+        nodes_of(c, out)
+    return out
+
+
+MUTATIONS = ["dsz", "size", "xl", "ddsz", "dxl", "type", "tog", "label", "salt", "empty", "rawchild", "uuid0", "bfdb", "trunc",
+             "trail", "deep", "tail", "grow_root", "freebox"]
+
+
+def mutate(rng, tree, what=None):
+    """returns (tree-with-knobs, post) where post(bytes) -> bytes"""
+    t = json.loads(json.dumps(tree))
+    post = lambda b: b
+    what = what or rng.choice(MUTATIONS)
+    ns = nodes_of(t)
+    supers = [n for n in ns if n["k"] == "super"]
+    n = rng.choice(ns)
+    s = rng.choice(supers)
+    if what == "dsz":
+        n["_dsz"] = rng.choice([-9, -8, -7, -1, 1, 7, 8, 9, 16])
+    elif what == "size":
+        n["_size"] = rng.choice([0, 1, 2, 7, 8, 9, 23, 24, 25, 26, 2 ** 32 - 1, 2 ** 31])
+    elif what == "xl":
+        n["_xl"] = True
+        n["_xl_counts16"] = rng.random() < 0.5
+        if rng.random() < 0.2:
+            n["_size"] = rng.choice([2 ** 64 - 1, 2 ** 63, 2 ** 32, 0, 1, 8])
+    elif what == "ddsz":
+        s["_ddsz"] = rng.choice([-8, -1, 1, 8])
+    elif what == "dxl":
+        s["_dxl"] = True
+    elif what == "type":
+        n["_type"] = rng.choice(["61626364", "00000000", "6a736f00", "6a756d64", "63327368", "75756964", "66726565"])
+    elif what == "tog":
+        s["tog"] ^= rng.choice([1, 2, 4, 8, 16, 32, 64, 128])
+    elif what == "label":
+        s["_label_raw"] = rng.choice(["", "00", "ff00", "c328a000", "61ff6200", "eda08000", "f4908080" + "00", "6162", "e2828200",
+                                      "f09f988000"])
+    elif what == "salt":
+        s["tog"] |= 16
+        s["salt"] = s.get("salt") or rbytes(rng, 16).hex()
+        r = rng.random()
+        if r < 0.4:
+            s["_salt_size"] = 8 + len(s["salt"]) // 2 + rng.choice([-8, -1, 1, 8, -24])
+        elif r < 0.7:
+            s["_salt_type"] = rng.choice(["66726565", "00000000"])
+        else:
+            s["_salt_xl"] = True
+    elif what == "empty":
+        s["c"] = []
+        if rng.random() < 0.5 and s is not t:
+            s["_dsz"] = 8
+            s["c"] = [{"k": "raw", "d": "00" * 8}]
+    elif what == "rawchild":
+        raw = rng.choice(["00" * 8, "0000000861626364", "0000000c6162636401020304", "00000008" + "00000000", "0000000a7879",
+                          "000000086a736f6e", "0000000066726565", rbytes(rng, rng.randrange(1, 12)).hex()])
+        s["c"].insert(rng.randrange(len(s["c"]) + 1), {"k": "raw", "d": raw})
+    elif what == "uuid0":
+        u = {"k": "uuid", "u": rbytes(rng, 16).hex(), "d": ""}
+        if rng.random() < 0.7:
+            u["_keep_uuid"] = True
+        s["c"].insert(rng.randrange(len(s["c"]) + 1), u)
+    elif what == "bfdb":
+        b = {"k": "bfdb", "tog": rng.choice([0, 1, 1, 2]), "mt": "", "fn": None,
+             "_mt_raw": rng.choice(["", "00", "6100", "610062", "61006200", "6162", "ff00", "ff", "0000", "610000"])}
+        s["c"].insert(rng.randrange(len(s["c"]) + 1), b)
+    elif what == "trunc":
+        k = rng.choice([1, 2, 3, 4, 5, 7, 8, 9, 16, rng.randrange(1, 60)])
+        post = lambda b: b[:max(0, len(b) - k)]
+    elif what == "trail":
+        tail = rng.choice([b"\0", b"\0" * 8, b"\0\0\0\x08abcd", rbytes(rng, rng.randrange(1, 20))])
+        post = lambda b: b + tail
+    elif what == "deep":
+        d = rng.choice([30, 31, 32, 33])
+        t = chain(rng, d - 1, t) if d > 1 else t
+    elif what == "tail":
+        # a short tail at the end of a box whose declared size reaches past the data: partial header reads
+        t["_dsz"] = rng.choice([8, 16, 100])
+        tail = rng.choice(["0000000a7879", "000000097800", "0000000b787900", "0000000c78797a", "00000008787a", rbytes(rng, rng.randrange(5, 8)).hex()])
+        t["c"].append({"k": "raw", "d": tail})
+    elif what == "grow_root":
+        t["_dsz"] = rng.choice([1, 8, 9, 1000])
+    elif what == "freebox":
+        s["c"].insert(rng.randrange(len(s["c"]) + 1), {"k": "free", "d": "00" * rng.choice([0, 1, 8, 30])})
+    return t, post, what
+
+
+def shrink(n, keep=40):
+    """structure-preserving reduction of a real store: long leaf payloads are cut"""
+    o = dict(n)
+    if "c" in o:
+        o["c"] = [shrink(c, keep) for c in o["c"]]
+    if "d" in o and len(o["d"]) > 2 * 200:
+        o["d"] = o["d"][:2 * keep]
+    return o
+
+
+# ------------------------------------------------------------------ classes of the known fixed-point failures (on a printed tree)
+
+def classes_of(tree):
+    """which of the known non-canonical shapes a parsed tree contains (mirrors `known` in Proofs/JumbfProofs.v)"""
+    out = set()
+    for n in nodes_of(tree):
+        if n["k"] == "uuid" and n["d"] == "":
+            out.add("uuid_empty")
+        if n["k"] == "super" and not n["c"]:
+            out.add("empty_super")
+        if n["k"] == "bfdb":
+            mt = bytes.fromhex(n["mt"])
+            if mt and not valid_text(mt):
+                out.add("bfdb_not_utf8")
+            elif mt and n["tog"] == 1 and 0 in mt:
+                out.add("bfdb_nul")
+            elif (mt and n["tog"] == 1 and n["fn"] != "00") or ((not mt or n["tog"] != 1) and n["fn"] is not None):
+                out.add("bfdb_fn")
+    return sorted(out)
+
+
+MANIFEST_BOXES = (b"c2pa.assertions", b"c2pa.claim", b"c2pa.signature", b"c2pa.credentials", b"c2pa.databoxes")
+
+
+def store_classes_of(tree):
+    """store layer: a manifest child whose label is not one of the five box names (before any __instance / .vN suffix handling
+    of Claim::box_name_label_instance) is found by its uuid on load but is not in the box order that is written back"""
+    out = set(classes_of(tree))
+    for man in tree.get("c", []):
+        for ch in man.get("c", []) if man["k"] == "super" else []:
+            if ch["k"] == "super":
+                lab = bytes.fromhex(ch["label"])
+                base = lab.split(b"__")[0]
+                if not any(base == m or base.startswith(m + b".v") for m in MANIFEST_BOXES):
+                    out.add("manifest_box_label_unrecognised")
+    return sorted(out)
+
+
+def full_case(c):
+    return {k: v for k, v in c.items() if k not in ("tree", "want_tree")}
+
+
+def trunc_case(c):
+    return {k: (v if not isinstance(v, str) or len(v) < 400 else v[:400] + "...") for k, v in c.items() if k != "tree"}
+
+
+def evaluate(ctx, cases, with_model=True, stats=None):
+    """cases: dicts with id, op ('box'|'store'), data (hex), origin.  Oracle on the implementation, correspondence with the model (box)."""
+    stats = stats if stats is not None else {}
+    import time
+    t0 = time.time()
+    impl = common.run_harness("c18", cases)
+    common.log(f"[C18]   harness on {len(cases)} cases: {time.time() - t0:.0f}s")
+    boxes = [c for c in cases if c["op"] == "box"]
+    model, compact = {}, set()
+    if with_model and boxes:
+        import resource
+        try:    # coqc parses long literals recursively
+            resource.setrlimit(resource.RLIMIT_STACK, (resource.RLIM_INFINITY, resource.RLIM_INFINITY))
+        except (ValueError, OSError):
+            pass
+        shortc = [c for c in boxes if len(c["data"]) // 2 <= COMPACT_ABOVE]
+        longc = [c for c in boxes if len(c["data"]) // 2 > COMPACT_ABOVE]
+        outs = common.coq_eval("C18", IMPORTS, [f"box_report {coq_big_bytes(bytes.fromhex(c['data']))}" for c in shortc],
+                               shard_size=40, timeout=1500)
+        for c, o in zip(shortc, outs):
+            model[c["id"]] = report_of_coq(o)
+        medc = [c for c in longc if len(c["data"]) // 2 <= 12000]
+        bigc = [c for c in longc if len(c["data"]) // 2 > 12000]
+        for tag, group, shard in (("C18M", medc, 8), ("C18L", bigc, 1)):
+            outs = common.coq_eval(tag, IMPORTS, [f"box_digest {coq_big_bytes(bytes.fromhex(c['data']))}" for c in group],
+                                   shard_size=shard, timeout=1500)
+            for c, o in zip(group, outs):
+                model[c["id"]] = digest_of_coq(o)
+                compact.add(c["id"])
+        common.log(f"[C18]   model on {len(shortc)} short + {len(longc)} long cases: {time.time() - t0:.0f}s")
+    # store cases that fail the oracle: print their box tree to classify them
+    bad = [c for c in cases if c["op"] == "store" and impl[c["id"]].get("r") == "ok"
+           and (impl[c["id"]].get("r2") != "ok" or not impl[c["id"]].get("enc2_same"))]
+    store_trees = {}
+    if bad:
+        fr = common.run_harness("c18", [{"id": c["id"], "op": "box", "data": c["data"]} for c in bad])
+        store_trees = {c["id"]: fr[c["id"]].get("tree") for c in bad}
+    distinct = set()
+    for c in cases:
+        r = impl[c["id"]]
+        key = f"{c['op']}:{r['r']}" + (":" + r.get("kind", "") if r["r"] == "err" else "")
+        stats.setdefault("outcomes", {})
+        stats["outcomes"][key] = stats["outcomes"].get(key, 0) + 1
+        stats.setdefault("origins", {})
+        stats["origins"][c.get("origin", "?")] = stats["origins"].get(c.get("origin", "?"), 0) + 1
+        if r["r"] == "ok":
+            distinct.add(c["data"])
+        mi = dict(full_case(c))
+        mi["classes"] = classes_of(r["tree"]) if r.get("tree") else []
+        if store_trees.get(c["id"]):
+            mi["classes"] = store_classes_of(store_trees[c["id"]])
+        mi["impl"] = {k: v for k, v in r.items() if k in ("r", "r2", "kind", "kind2", "enc2_same", "tree2_same", "same_as_input")}
+        # ---- oracle: the property text on the implementation alone
+        if r["r"] in ("panic", "crash"):
+            pass    # robustness of the parser on hostile input is not this property; compared with the model below
+        elif r["r"] == "hang":
+            # a parser that does not return has not accepted the input: outside this property (C10); counted, and
+            # compared with the model (which runs out of fuel on the same inputs)
+            stats["parser_hangs"] = stats.get("parser_hangs", 0) + 1
+        elif r["r"] == "ok":
+            sdk = c.get("origin") in ("sdk",)
+            if c["op"] == "store" and sdk and not r.get("same_as_input"):
+                ctx.report_violation(full_case(c), "a store produced by the SDK does not re-serialise to identical bytes", mi)
+            if c["op"] == "box" and sdk and not r.get("enc_same_as_input"):
+                ctx.report_violation(full_case(c), "the box tree of a store produced by the SDK does not re-serialise to identical bytes", mi)
+            if r.get("r2") != "ok":
+                ctx.report_violation(full_case(c), f"accepted input, but its re-serialisation is not accepted again: {r.get('r2')} {r.get('kind2', '')}", mi)
+            elif not r.get("enc2_same"):
+                ctx.report_violation(full_case(c), "re-serialise + parse is not a fixed point: the second re-serialisation differs from the first", mi)
+            for cl in mi["classes"]:
+                stats.setdefault("classes", {})
+                stats["classes"][cl] = stats["classes"].get(cl, 0) + 1
+        # ---- correspondence
+        if c["id"] in model:
+            m = model[c["id"]]
+            ir = digest_of_impl(r) if c["id"] in compact else {k: v for k, v in r.items() if k != "id" and k != "enc_same_as_input"}
+            if ir != m:
+                diff = sorted(k for k in set(ir) | set(m) if ir.get(k) != m.get(k))
+                ctx.disagreements.append({"case": full_case(c), "differs_in": diff,
+                                          "impl": {k: str(ir.get(k))[:300] for k in diff}, "model": {k: str(m.get(k))[:300] for k in diff}})
+    return stats, len(distinct)
+
+
+# ------------------------------------------------------------------ inputs
+
+QUICK_FIXTURES = ["dashinit.mp4", "no_alg.jpg", "express-signed.pdf", "legacy.mp4", "C.jpg"]
+ALL_FIXTURES = QUICK_FIXTURES + ["CA.jpg", "CACA.jpg", "cloud_manifest.c2pa", "C_with_CAWG_data.jpg", "E-sig-CA.jpg", "boxhash.jpg",
+                                 "prerelease.jpg", "CIE-sig-CA.jpg", "ocsp.jpg", "adobe-20220124-E-clm-CAICAI.jpg"]
+ACTIONS = {"label": "c2pa.actions", "data": {"actions": [{"action": "c2pa.created",
+           "digitalSourceType": "http://cv.iptc.org/newscodes/digitalsourcetype/digitalCapture"}]}}
+NOTHUMB = {"builder": {"thumbnail": {"enabled": False}}}
+
+
+def build_cases(rng, n):
+    """manifest definitions for Builder::sign: plain, compressed, extra JSON/CBOR assertions, with a parent ingredient
+    (carries the parent's manifests), with thumbnails (embedded-file boxes), different source formats"""
+    out = []
+    for i in range(n):
+        assertions = [ACTIONS]
+        for j in range(rng.choice([0, 0, 1, 2, 3])):
+            if rng.random() < 0.5:
+                assertions.append({"label": f"org.verif.j{j}", "kind": "Json", "data": {"k": rng.randrange(1000), "s": "x" * rng.randrange(40)}})
+            else:
+                assertions.append({"label": f"org.verif.c{j}", "data": {"v": [rng.randrange(256) for _ in range(rng.randrange(6))]}})
+        if rng.random() < 0.3:
+            assertions.append({"label": "org.verif.same", "data": {"n": 1}})
+            assertions.append({"label": "org.verif.same", "data": {"n": 2}})      # instance labels __1
+        d = {"title": f"verif {i}", "claim_generator_info": [{"name": "verif-harness", "version": "0.1"}], "assertions": assertions}
+        settings = {}
+        kind = rng.choice(["plain", "plain", "compressed", "thumb", "ingredient", "png"]) if i >= 5 else ["plain", "compressed", "thumb", "ingredient", "png"][i]
+        c = {"op": "build", "kind": kind, "def": json.dumps(d), "src": "earth_apollo17.jpg"}
+        if kind != "thumb":
+            settings.update(NOTHUMB)
+        if kind == "compressed":
+            settings["core"] = {"prefer_compress_manifests": True}
+        if kind == "ingredient":
+            c["ingredients"] = [{"file": rng.choice(["C.jpg", "dashinit.mp4"]) if False else "C.jpg",
+                                 "json": json.dumps({"title": "parent", "relationship": rng.choice(["parentOf", "componentOf"])})}]
+        if kind == "png":
+            c["src"] = "sample1.png"
+        c["settings"] = json.dumps(settings) if settings else None
+        out.append(c)
+    return out
+
+
+STORE_MUTATIONS = ["freebox", "rawchild", "salt", "xl", "trail", "tog", "type", "label", "dxl", "assert_uuid", "assert_bfdb",
+                   "extra_manifest", "swap", "drop"]
+
+
+def store_mutant(rng, tree):
+    """mutants of a real store that keep its claim CBOR: structure around the assertions is changed"""
+    w = rng.choice(STORE_MUTATIONS)
+    if w not in ("assert_uuid", "assert_bfdb", "extra_manifest", "swap", "drop"):
+        m, post, w = mutate(rng, tree, w)
+        return post(ser(m)), w
+    t = json.loads(json.dumps(tree))
+    manifests = [m for m in t["c"] if m["k"] == "super"]
+    man = rng.choice(manifests) if manifests else t
+    stores = [s for s in man.get("c", []) if s["k"] == "super" and bytes.fromhex(s["label"]) == b"c2pa.assertions"]
+    if w == "extra_manifest":
+        t["c"].insert(rng.randrange(len(t["c"]) + 1), dict(gen_desc(rng), k="super", c=[{"k": "json", "d": "7b7d"}]))
+    elif w == "swap" and len(man.get("c", [])) >= 2:
+        i, j = rng.sample(range(len(man["c"])), 2)
+        man["c"][i], man["c"][j] = man["c"][j], man["c"][i]
+    elif stores and stores[0]["c"]:
+        a = rng.choice(stores[0]["c"])
+        if w == "drop":
+            stores[0]["c"].remove(a)
+        elif w == "assert_uuid" and a["k"] == "super":
+            a["uuid"] = "7575696400110010800000aa00389b71"
+            u = {"k": "uuid", "u": rng.choice(["caa98eee9d4df80e86ad4dffca263973", rbytes(rng, 16).hex()]),
+                 "d": rng.choice(["", "", "00" * 8, "0102"])}
+            if not u["d"]:
+                u["_keep_uuid"] = True
+            a["c"] = [u]
+        elif w == "assert_bfdb" and a["k"] == "super":
+            a["uuid"] = "40cb0c32bb8a489da70b2ad6f47f4369"
+            a["c"] = [{"k": "bfdb", "tog": rng.choice([0, 1]), "mt": "", "fn": None,
+                       "_mt_raw": rng.choice(["696d6167652f6a70656700", "610062", "61006200", "ff00", "", "6100"])},
+                      {"k": "bidb", "d": rbytes(rng, 10).hex()}]
+    return ser(t), w
+
+
+def shrink_media(n, keep=40):
+    o = dict(n)
+    if "c" in o:
+        o["c"] = [shrink_media(c, keep) for c in o["c"]]
+    if o["k"] in ("bidb", "jp2c") and len(o.get("d", "")) > 400:
+        o["d"] = o["d"][:2 * keep]
+    return o
+
+
+def corpus():
+    p = os.path.join(common.VERIF, "corpus", "C18.jsonl")
+    if not os.path.exists(p):
+        return []
+    return [json.loads(l) for l in open(p) if l.strip()]
+
+
+def sdk_stores(ctx, rng, nbuild, fixtures):
+    """manifest stores produced by the SDK: fixtures of the repository and stores built now from generated definitions"""
+    reqs = [{"op": "extract", "file": f} for f in fixtures] + build_cases(rng, nbuild)
+    for i, c in enumerate(reqs):
+        c["id"] = i
+    res = common.run_harness("c18", reqs, timeout=900)
+    out, failed = [], []
+    for c in reqs:
+        r = res[c["id"]]
+        if r.get("r") == "ok":
+            out.append((c.get("file") or ("build:" + c["kind"]), r["jumbf"]))
+        else:
+            failed.append(f"{c.get('file') or c['kind']}:{r.get('kind') or r.get('r')}")
+    return out, failed
+
+
+def run(ctx):
+    if not getattr(ctx, "no_build", False):
+        common.build_harness()
+    stats = {}
+    if ctx.replay:
+        cases = [ctx.replay["case"]] if "case" in ctx.replay else [d["case"] for d in ctx.replay.get("disagreements", [])]
+        cases = [c for c in cases if "data" in c and not c["data"].endswith("...")]
+        for i, c in enumerate(cases):
+            c["id"] = i
+        st, distinct = evaluate(ctx, cases, stats=stats)
+        ctx.coverage.update({"evaluations": len(cases), "distinct_nontrivial": distinct, "rule": "replay", "distribution": stats, "samples": []})
+        return
+    import time
+    t0 = time.time()
+    lap = lambda what: common.log(f"[C18] {what}: {time.time() - t0:.0f}s")
+    q = ctx.quick()
+    rng = ctx.rng
+    cases = list(corpus())
+    # 1. SDK-produced stores (fixtures + Builder::sign on generated definitions): box layer and store layer
+    stores, failed = sdk_stores(ctx, rng, 5 if q else 24, QUICK_FIXTURES if q else ALL_FIXTURES)
+    lap("sdk stores")
+    stats["sdk_stores"] = len(stores)
+    stats["sdk_store_failures"] = failed
+    if not stores:
+        raise TieBroken("no SDK-produced manifest store could be obtained (fixtures unreadable and Builder::sign failing)")
+    model_limit = 40000 if q else 260000
+    for name, j in stores:
+        cases.append({"op": "store", "data": j, "origin": "sdk", "name": name})
+        if len(j) // 2 <= model_limit:
+            cases.append({"op": "box", "data": j, "origin": "sdk", "name": name})
+    # 2. trees of real stores (printed by the implementation), media payloads shortened: canonical re-serialisation + mutants
+    small = [s for s in stores if len(s[1]) // 2 <= 70000 and s[0] not in ("no_alg.jpg", "prerelease.jpg")][: (4 if q else 12)]
+    pre = [{"id": i, "op": "box", "data": j} for i, (_, j) in enumerate(small)]
+    pr = common.run_harness("c18", pre)
+    real_trees = [shrink_media(pr[i]["tree"]) for i in range(len(pre)) if pr[i].get("r") == "ok"]
+    for t in real_trees:
+        cases.append({"op": "box", "data": ser(t).hex(), "origin": "real-shrunk"})
+        cases.append({"op": "store", "data": ser(t).hex(), "origin": "real-shrunk"})
+    for _ in range(30 if q else 300):
+        t = rng.choice(real_trees)
+        m, post, w = mutate(rng, t)
+        cases.append({"op": "box", "data": post(ser(m)).hex(), "origin": "real-mutant:" + w})
+    for _ in range(50 if q else 600):
+        b, w = store_mutant(rng, rng.choice(real_trees))
+        cases.append({"op": "store", "data": b.hex(), "origin": "store-mutant:" + w})
+    # 3. generated trees, parser-accepted (and rejected) structure-aware mutants
+    for i in range(150 if q else 2500):
+        t = gen_tree(rng)
+        m, post, w = mutate(rng, t)
+        if rng.random() < 0.3:
+            m, post2, w2 = mutate(rng, m)
+            w += "+" + w2
+            post = (lambda b, p1=post, p2=post2: p2(p1(b)))
+        cases.append({"op": "box", "data": post(ser(m)).hex(), "origin": "mutant:" + w})
+    for d in ([31, 32, 33] if q else [1, 2, 30, 31, 32, 33, 34, 40]):
+        cases.append({"op": "box", "data": ser(chain(rng, d)).hex(), "origin": f"depth:{d}"})
+    for i, c in enumerate(cases):
+        c["id"] = i
+    lap("cases generated")
+    evaluate(ctx, cases, stats=stats)
+    lap("evaluated")
+    # 4. model-generated well-formed trees serialised by the *model's* encoder
+    trees = [gen_tree(rng) for _ in range(100 if q else 1500)]
+    outs = common.coq_eval("C18t", IMPORTS, [f"tree_report {coq_tree(t)}" for t in trees], shard_size=25, timeout=1500)
+    mcases, mreports = [], {}
+    stats["model_trees"] = {"n": len(trees), "not_wf": 0, "python_writer_differs": 0}
+    for i, (t, o) in enumerate(zip(trees, outs)):
+        e, sh, rep = o
+        data = hx(e)
+        if sh != "true":
+            stats["model_trees"]["not_wf"] += 1
+        if data != ser(t).hex():
+            stats["model_trees"]["python_writer_differs"] += 1
+        cid = len(cases) + i
+        mcases.append({"id": cid, "op": "box", "data": data, "origin": "model-tree", "want_tree": t})
+        mreports[cid] = report_of_coq(rep)
+    impl = common.run_harness("c18", [{k: v for k, v in c.items() if k != "want_tree"} for c in mcases])
+    for c in mcases:
+        r = {k: v for k, v in impl[c["id"]].items() if k not in ("id", "enc_same_as_input")}
+        m = mreports[c["id"]]
+        stats["outcomes"]["model-tree:" + r["r"]] = stats["outcomes"].get("model-tree:" + r["r"], 0) + 1
+        if r != m:
+            diff = sorted(k for k in set(r) | set(m) if r.get(k) != m.get(k))
+            ctx.disagreements.append({"case": full_case(c), "differs_in": diff, "impl": {k: str(r.get(k))[:300] for k in diff},
+                                      "model": {k: str(m.get(k))[:300] for k in diff}})
+        # oracle (property text): accepted bytes => re-serialise + parse is a fixed point
+        if r["r"] == "ok" and (r.get("r2") != "ok" or not r.get("enc2_same")):
+            ctx.report_violation(full_case(c), "re-serialise + parse is not a fixed point on the serialisation of a well-formed tree",
+                                 dict(trunc_case(c), classes=classes_of(r["tree"])))
+        # correspondence with the generated tree itself (the model's report is compared above)
+        elif r["r"] != "ok" or r["tree"] != strip_knobs(c["want_tree"]) or r["enc"] != c["data"]:
+            ctx.disagreements.append({"case": full_case(c), "differs_in": ["generated tree"], "impl": {"r": r["r"], "kind": r.get("kind")},
+                                      "model": {"r": "ok"}})
+    if stats["model_trees"]["not_wf"] or stats["model_trees"]["python_writer_differs"]:
+        ctx.tie_errors.append(f"generator/model mismatch: {stats['model_trees']}")
+    lap("model trees")
+    allc = cases + mcases
+    accepted = stats["outcomes"].get("box:ok", 0) + stats["outcomes"].get("store:ok", 0) + stats["outcomes"].get("model-tree:ok", 0)
+    ctx.coverage.update({
+        "evaluations": len(allc), "distinct_nontrivial": accepted,
+        "rule": "corpus + SDK-produced stores (fixtures, Builder::sign on generated definitions: plain/compressed/thumbnail/ingredient/png) at the "
+                "store and the box layer + their trees with shortened media + structure-aware mutants (length fields, XLBox, toggles, labels, "
+                "salt, empty superboxes, unknown/zero-type boxes, uuid/bfdb shapes, truncation, trailing bytes, nesting to the limit +-1) + "
+                "model-generated well-formed trees serialised by the model; non-trivial = accepted by the implementation",
+        "distribution": stats,
+        "traces_validated_against_impl": len([c for c in allc if c["op"] == "box"]),
+        "samples": [trunc_case({k: v for k, v in c.items() if k != "want_tree"}) for c in allc[:2] + allc[len(allc) // 2: len(allc) // 2 + 2]],
+    })
+
+
+def search(ctx):
+    """tie broken and nothing found yet: larger biased generator, oracle only"""
+    common.build_harness()
+    rng = ctx.rng
+    cases = []
+    stores, _ = sdk_stores(ctx, rng, 8, QUICK_FIXTURES)
+    for name, j in stores:
+        cases.append({"op": "store", "data": j, "origin": "sdk", "name": name})
+        cases.append({"op": "box", "data": j, "origin": "sdk", "name": name})
+    for i in range(1500):
+        t = gen_tree(rng)
+        if i % 3 == 0:
+            cases.append({"op": "box", "data": ser(t).hex(), "origin": "canon"})
+        else:
+            m, post, w = mutate(rng, t, rng.choice([x for x in MUTATIONS if x != "tail"]))
+            cases.append({"op": "box", "data": post(ser(m)).hex(), "origin": "mutant:" + w})
+    for i, c in enumerate(cases):
+        c["id"] = i
+    stats = {}
+    evaluate(ctx, cases, with_model=False, stats=stats)
+    # canonical python-written trees must round-trip byte-identically on the implementation
+    ctx.coverage["search_evaluations"] = len(cases)
